@@ -21,7 +21,8 @@ def J (cfg : Cfg) (s : St) : Prop :=
   (s.os = true → s.sess = true) ∧
   (s.fileOpen = true → s.logAttached = true ∧ cfg.sink = .path) ∧
   (s.logAttached = true → cfg.sink ≠ .none) ∧
-  s.bioClosed = false
+  s.bioClosed = false ∧
+  (isTelnet cfg.kind = false → s.tn = {})
 
 /-- `J` + no orphaned session (preserved by every statement except `transport.open()`) -/
 def K (cfg : Cfg) (s : St) : Prop := J cfg s ∧ s.orphan = false
@@ -144,7 +145,7 @@ end pres
 
 /-- what a predicate must tolerate to survive every statement except `transport.open()` -/
 structure Tol (cfg : Cfg) (P : St → Prop) : Prop where
-  tn : ∀ s t, P s → P { s with tn := t }
+  tn : ∀ s e, P s → P { s with tn := stepTn cfg s.tn e }
   dead : ∀ s, P s → P { s with alive := false }
   tclose : ∀ s, P s → P (transportClose cfg s)
   copen : ∀ s, P s → P (channelOpen cfg s)
@@ -213,36 +214,54 @@ theorem ownerHeld_fixed (hf : cfg.facts = factsFixed) (s : St) : ownerHeld cfg s
   simp [ownerHeld, hf, factsFixed]
 
 theorem J_of_same {s s' : St} (h : J cfg s) (h1 : s'.os = s.os) (h2 : s'.sess = s.sess) (h3 : s'.fileOpen = s.fileOpen)
-    (h4 : s'.logAttached = s.logAttached) (h5 : s'.bioClosed = s.bioClosed) : J cfg s' := by
-  unfold J at *; rw [h1, h2, h3, h4, h5]; exact h
+    (h4 : s'.logAttached = s.logAttached) (h5 : s'.bioClosed = s.bioClosed) (h6 : s'.tn = s.tn) : J cfg s' := by
+  unfold J at *; rw [h1, h2, h3, h4, h5, h6]; exact h
+
+theorem stepTn_other (hk : isTelnet cfg.kind = false) (t : Tn) (e : Option Tn) : stepTn cfg t e = t := by
+  unfold stepTn; cases e <;> simp [hk]
+
+theorem resetTn_nil (t : Tn) : resetTn [] t = t := by
+  simp [resetTn]
+
+theorem resetsOf_other (hk : isTelnet cfg.kind = false) : resetsOf cfg = [] := by
+  unfold resetsOf; unfold isTelnet at hk
+  cases hkk : cfg.kind <;> simp_all
+
+theorem J_stepTn {s : St} (e : Option Tn) (h : J cfg s) : J cfg { s with tn := stepTn cfg s.tn e } := by
+  obtain ⟨h1, h2, h3, h4, h5⟩ := h
+  exact ⟨h1, h2, h3, h4, fun hk => by rw [stepTn_other hk]; exact h5 hk⟩
+
+theorem J_resetTn {s : St} (h : J cfg s) : J cfg { s with tn := resetTn (resetsOf cfg) s.tn } := by
+  obtain ⟨h1, h2, h3, h4, h5⟩ := h
+  exact ⟨h1, h2, h3, h4, fun hk => by rw [resetsOf_other hk, resetTn_nil]; exact h5 hk⟩
 
 theorem transportClose_J (hf : cfg.facts = factsFixed) (s : St) (h : J cfg s) : J cfg (transportClose cfg s) := by
-  obtain ⟨h1, h2, h3, h4⟩ := h
-  refine ⟨?_, h2, h3, h4⟩
+  obtain ⟨h1, h2, h3, h4, h5⟩ := h
+  refine ⟨?_, h2, h3, h4, h5⟩
   simp only [transportClose, ownerHeld_fixed hf]
   cases hs : s.sess <;> cases ho : s.os <;> simp_all
 
 theorem channelClose_J (hf : cfg.facts = factsFixed) (s : St) (h : J cfg s) : J cfg (channelClose cfg s) := by
-  obtain ⟨h1, h2, h3, h4⟩ := h
+  obtain ⟨h1, h2, h3, h4, h5⟩ := h
   unfold channelClose
   split
-  · exact ⟨h1, h2, h3, h4⟩
+  · exact ⟨h1, h2, h3, h4, h5⟩
   · split
-    · exact ⟨h1, h2, h3, h4⟩
-    · exact ⟨h1, by simp, h3, h4⟩
-    · simp only [hf, factsFixed, if_true]; exact ⟨h1, h2, h3, h4⟩
+    · exact ⟨h1, h2, h3, h4, h5⟩
+    · exact ⟨h1, by simp, h3, h4, h5⟩
+    · simp only [hf, factsFixed, if_true]; exact ⟨h1, h2, h3, h4, h5⟩
 
 theorem channelOpen_J (s : St) (h : J cfg s) : J cfg (channelOpen cfg s) := by
-  obtain ⟨h1, h2, h3, h4⟩ := h
+  obtain ⟨h1, h2, h3, h4, h5⟩ := h
   unfold channelOpen
   split
-  · exact ⟨h1, h2, h3, h4⟩
-  · rename_i hp; exact ⟨h1, by simp [hp], by simp [hp], h4⟩
-  · rename_i hp; exact ⟨h1, by intro hfo; exact ⟨rfl, (h2 hfo).2⟩, by simp [hp], h4⟩
+  · exact ⟨h1, h2, h3, h4, h5⟩
+  · rename_i hp; exact ⟨h1, by simp [hp], by simp [hp], h4, h5⟩
+  · rename_i hp; exact ⟨h1, by intro hfo; exact ⟨rfl, (h2 hfo).2⟩, by simp [hp], h4, h5⟩
 
 theorem tol_J (hf : cfg.facts = factsFixed) : Tol cfg (J cfg) where
-  tn := fun _ _ h => J_of_same h rfl rfl rfl rfl rfl
-  dead := fun _ h => J_of_same h rfl rfl rfl rfl rfl
+  tn := fun _ e h => J_stepTn e h
+  dead := fun _ h => J_of_same h rfl rfl rfl rfl rfl rfl
   tclose := transportClose_J hf
   copen := channelOpen_J
   cclose := channelClose_J hf
@@ -295,16 +314,16 @@ theorem tol_K (hf : cfg.facts = factsFixed) : Tol cfg (K cfg) := tol_and (tol_J 
 /-! ### transport.open() -/
 
 theorem transportOpen_J (s : St) (tape : List Ev) (h : J cfg s) : J cfg (transportOpen cfg s tape).st := by
-  have h' : J cfg { s with tn := resetTn (resetsOf cfg) s.tn } := J_of_same h rfl rfl rfl rfl rfl
-  obtain ⟨h1, h2, h3, h4⟩ := h'
+  have h' : J cfg { s with tn := resetTn (resetsOf cfg) s.tn } := J_resetTn h
+  obtain ⟨h1, h2, h3, h4, h5⟩ := h'
   unfold transportOpen
   simp only
   split
-  · exact ⟨h1, h2, h3, h4⟩
+  · exact ⟨h1, h2, h3, h4, h5⟩
   · split
-    · exact ⟨fun _ => rfl, h2, h3, h4⟩
-    · exact ⟨h1, h2, h3, h4⟩
-  · exact ⟨fun _ => rfl, h2, h3, h4⟩
+    · exact ⟨fun _ => rfl, h2, h3, h4, h5⟩
+    · exact ⟨h1, h2, h3, h4, h5⟩
+  · exact ⟨fun _ => rfl, h2, h3, h4, h5⟩
 
 theorem transportOpen_need (s : St) (tape : List Ev) : (transportOpen cfg s tape).st.needClose = s.needClose := by
   unfold transportOpen
@@ -461,7 +480,7 @@ theorem runClose_fixed (hc : cfg.code = codeFixed cfg.stack) (s : St) (tape : Li
 
 theorem closeBoth_released (hf : cfg.facts = factsFixed) (s : St) (hk : K cfg s) :
     Released (channelClose cfg (transportClose cfg s)) := by
-  obtain ⟨⟨h1, h2, h3, h4⟩, h5⟩ := hk
+  obtain ⟨⟨h1, h2, h3, h4, _⟩, h5⟩ := hk
   have hos : (transportClose cfg s).os = false := by
     simp only [transportClose, ownerHeld_fixed hf]
     cases hs : s.sess <;> cases ho : s.os <;> simp_all
@@ -643,6 +662,197 @@ theorem runOpen_orphan (hc : cfg.code.openP = openOf cfg.stack) (s : St) (tape :
   · have ht : Tol cfg (fun x => x.orphan = s.orphan) := tol_orphan s.orphan
     exact execProg_pres _ (execStmt0 cfg) cfg tail (fun x hx s' tape' h => execStmt0_pres ht x.s (hno x hx) s' tape' h) _ _ ho
   · exact ho
+
+
+
+/-! ### __enter__ / __exit__ -/
+
+theorem runEnter_unfold (hc : cfg.code.enterP = enterP) (s : St) (tape : List Ev) :
+    (runEnter cfg s tape).st = (if (runOpen cfg s tape).ok then (runOpen cfg s tape).st
+                                else channelClose cfg (transportClose cfg (runOpen cfg s tape).st)) ∧
+    (runEnter cfg s tape).out = (if (runOpen cfg s tape).ok then .returns else .raises .connError) ∧
+    (runEnter cfg s tape).tape = (runOpen cfg s tape).tape := by
+  unfold runEnter
+  rw [hc]
+  unfold enterP
+  obtain ⟨p1, p2, p3⟩ := execProg_single (cfg := cfg) (execStmt1 cfg)
+    (.tryExceptRaise [⟨.always, .callOpen⟩] [⟨.always, .logCritical⟩, ⟨.always, .transportClose⟩, ⟨.always, .channelClose⟩]) s tape
+  rw [p1, p2, p3]
+  obtain ⟨b1, b2, b3⟩ := execList_single (cfg := cfg) (execStmt1 cfg) .callOpen s tape
+  have hcall : execStmt1 cfg .callOpen s tape = runOpen cfg s tape := rfl
+  rw [hcall] at b1 b2 b3
+  unfold execNode
+  simp only
+  by_cases hok : (runOpen cfg s tape).ok = true
+  · have hbok : (execList (execStmt1 cfg) cfg [⟨.always, .callOpen⟩] s tape).ok = true := by
+      rw [ok_iff, b2]; exact (ok_iff _).1 hok
+    simp only [hbok, hok, if_true]
+    exact ⟨b1, by rw [b2]; exact (ok_iff _).1 hok, b3⟩
+  · have hok' : (runOpen cfg s tape).ok = false := by simpa using hok
+    have hbok : (execList (execStmt1 cfg) cfg [⟨.always, .callOpen⟩] s tape).ok = false := by
+      rw [ok_false_iff, b2]; exact (ok_false_iff _).1 hok'
+    -- the handler: logger.critical, transport.close(), channel.close()
+    have hq := quiet1_logCritical (cfg := cfg) (execList (execStmt1 cfg) cfg [⟨.always, .callOpen⟩] s tape).st
+      (execList (execStmt1 cfg) cfg [⟨.always, .callOpen⟩] s tape).tape
+    obtain ⟨c1, c2, c3, _⟩ := execList_cons_go (cfg := cfg) (execStmt1 cfg) ⟨.always, .logCritical⟩
+      [⟨.always, .transportClose⟩, ⟨.always, .channelClose⟩] _ _ rfl ((ok_iff _).2 hq.2.2)
+    obtain ⟨d1, d2, d3⟩ := closeBoth_list (cfg := cfg) (execStmt1 cfg) (fun _ _ => rfl) (fun _ _ => rfl)
+      (execStmt1 cfg .logCritical (execList (execStmt1 cfg) cfg [⟨.always, .callOpen⟩] s tape).st
+        (execList (execStmt1 cfg) cfg [⟨.always, .callOpen⟩] s tape).tape).st
+      (execStmt1 cfg .logCritical (execList (execStmt1 cfg) cfg [⟨.always, .callOpen⟩] s tape).st
+        (execList (execStmt1 cfg) cfg [⟨.always, .callOpen⟩] s tape).tape).tape
+    have hhok : (execList (execStmt1 cfg) cfg [⟨.always, .logCritical⟩, ⟨.always, .transportClose⟩, ⟨.always, .channelClose⟩]
+        (execList (execStmt1 cfg) cfg [⟨.always, .callOpen⟩] s tape).st
+        (execList (execStmt1 cfg) cfg [⟨.always, .callOpen⟩] s tape).tape).ok = true := by
+      rw [ok_iff, c2]; exact (ok_iff _).1 d3
+    simp only [hbok, hok', hhok, if_true, Bool.false_eq_true, if_false]
+    refine ⟨?_, trivial, ?_⟩
+    · rw [c1, d1, hq.1, b1]
+    · rw [c3, d2, hq.2.1, b3]
+
+theorem runExit_unfold (hc : cfg.code.exitP = exitP) (s : St) (tape : List Ev) :
+    (runExit cfg s tape).st = (runClose cfg s tape).st ∧ (runExit cfg s tape).out = (runClose cfg s tape).out ∧
+    (runExit cfg s tape).tape = (runClose cfg s tape).tape := by
+  unfold runExit
+  rw [hc]
+  unfold exitP
+  obtain ⟨p1, p2, p3⟩ := execProg_single (cfg := cfg) (execStmt1 cfg) (.simple ⟨.always, .callClose⟩) s tape
+  rw [p1, p2, p3]
+  have hn : execNode (execStmt1 cfg) cfg (.simple ⟨.always, .callClose⟩) s tape = execList (execStmt1 cfg) cfg [⟨.always, .callClose⟩] s tape := by
+    unfold execNode; rfl
+  rw [hn]
+  exact execList_single (cfg := cfg) (execStmt1 cfg) .callClose s tape
+
+
+
+/-! ### the invariant through every operation -/
+
+theorem K_need {s : St} (b : Bool) (h : K cfg s) : K cfg { s with needClose := b } :=
+  ⟨J_of_same h.1 rfl rfl rfl rfl rfl rfl, h.2⟩
+
+theorem Released_need {s : St} (b : Bool) (h : Released s) : Released { s with needClose := b } := h
+
+theorem code_fixed_parts (hc : cfg.code = codeFixed cfg.stack) :
+    cfg.code.openP = openOf cfg.stack ∧ cfg.code.enterP = enterP ∧ cfg.code.exitP = exitP := by
+  rw [hc]; exact ⟨rfl, rfl, rfl⟩
+
+theorem inv_fresh : Inv cfg {} :=
+  ⟨⟨⟨by simp, by simp, by simp, rfl, fun _ => rfl⟩, rfl⟩, fun _ => ⟨rfl, rfl, rfl, rfl, rfl, rfl⟩⟩
+
+theorem inv_operate (hfix : FixedCfg cfg) (s : St) (tape : List Ev) (h : Inv cfg s) :
+    Inv cfg (opOperate cfg s tape).st ∧ (opOperate cfg s tape).st.needClose = s.needClose := by
+  unfold opOperate
+  have hn : (interact cfg true "operate" s tape).st.needClose = s.needClose :=
+    interact_pres (P := fun x => x.needClose = s.needClose) (tol_need s.needClose) _ _ _ _ rfl
+  refine ⟨⟨interact_pres (tol_K hfix.2) _ _ _ _ h.1, ?_⟩, hn⟩
+  intro hnc
+  rw [hn] at hnc
+  have hr := h.2 hnc
+  rw [interact_closed _ _ _ _ hr.1]
+  exact hr
+
+theorem inv_close (hfix : FixedCfg cfg) (s : St) (tape : List Ev) (h : Inv cfg s) :
+    Inv cfg (opClose cfg s tape).st ∧ Released (opClose cfg s tape).st ∧ (opClose cfg s tape).st.needClose = false := by
+  unfold opClose
+  have hr := close_released hfix s tape h.1
+  have hk := close_K hfix s tape h.1
+  exact ⟨⟨K_need false hk, fun _ => Released_need false hr⟩, Released_need false hr, rfl⟩
+
+theorem inv_open (hfix : FixedCfg cfg) (s : St) (tape : List Ev) (h : Inv cfg s) (hn : s.needClose = false) :
+    Inv cfg (opOpen cfg s tape).st ∧ (opOpen cfg s tape).st.needClose = true := by
+  unfold opOpen
+  have hr := h.2 hn
+  have hk0 : K cfg { s with needClose := true } := K_need true h.1
+  have hneed : (runOpen cfg { s with needClose := true } tape).st.needClose = true := runOpen_need _ _
+  have horph : (runOpen cfg { s with needClose := true } tape).st.orphan = false := by
+    have := runOpen_orphan (code_fixed_parts hfix.1).1 { s with needClose := true } tape hr.2.2.1
+    rw [this]; exact hk0.2
+  refine ⟨⟨⟨runOpen_J hfix.2 _ _ hk0.1, horph⟩, ?_⟩, hneed⟩
+  intro hnc; rw [hneed] at hnc; exact absurd hnc (by simp)
+
+theorem inv_body (hfix : FixedCfg cfg) : ∀ (body : List BodyOp) (s : St) (tape : List Ev) (need : Bool),
+    Inv cfg s → s.needClose = need → bodyOK body need = true → Inv cfg (runBody cfg body s tape).st := by
+  intro body
+  induction body with
+  | nil => intro s tape need h _ _; simpa [runBody] using h
+  | cons b rest ih =>
+    intro s tape need h hn hb
+    -- one body operation: invariant + static ghost
+    have hstep : Inv cfg (runBodyOp cfg b s tape).st ∧
+        ((runBodyOp cfg b s tape).ok = true → ∃ need', (runBodyOp cfg b s tape).st.needClose = need' ∧ bodyOK rest need' = true) := by
+      cases b with
+      | operate =>
+        obtain ⟨h1, h2⟩ := inv_operate hfix s tape h
+        exact ⟨h1, fun _ => ⟨need, by rw [← hn]; exact h2, by simpa [bodyOK] using hb⟩⟩
+      | close =>
+        obtain ⟨h1, _, h3⟩ := inv_close hfix s tape h
+        exact ⟨h1, fun _ => ⟨false, h3, by simpa [bodyOK] using hb⟩⟩
+      | «open» =>
+        have hb' : need = false ∧ bodyOK rest true = true := by simpa [bodyOK] using hb
+        obtain ⟨h1, h2⟩ := inv_open hfix s tape h (hn.trans hb'.1)
+        exact ⟨h1, fun _ => ⟨true, h2, hb'.2⟩⟩
+      | raise =>
+        exact ⟨h, fun hok => by simp [runBodyOp, R.ok] at hok⟩
+    unfold runBody
+    by_cases hok : (runBodyOp cfg b s tape).ok = true
+    · simp only [hok, if_true]
+      obtain ⟨need', hn', hb'⟩ := hstep.2 hok
+      exact ih _ _ need' hstep.1 hn' hb'
+    · simp only [hok]; exact hstep.1
+
+theorem inv_with (hfix : FixedCfg cfg) (s : St) (tape : List Ev) (body : List BodyOp) (h : Inv cfg s)
+    (hn : s.needClose = false) (hb : bodyOK body true = true) :
+    Inv cfg (opWith cfg body s tape).st ∧ Released (opWith cfg body s tape).st ∧ (opWith cfg body s tape).st.needClose = false := by
+  obtain ⟨hco, hce, hcx⟩ := code_fixed_parts hfix.1
+  obtain ⟨ho1, ho2⟩ := inv_open hfix s tape h hn
+  unfold opOpen at ho1 ho2
+  obtain ⟨e1, e2, _⟩ := runEnter_unfold hce { s with needClose := true } tape
+  unfold opWith
+  simp only
+  by_cases hok : (runOpen cfg { s with needClose := true } tape).ok = true
+  · -- __enter__ returned: body, then __exit__ = close()
+    have hek : (runEnter cfg { s with needClose := true } tape).ok = true := by
+      rw [ok_iff, e2]; simp [hok]
+    have hst : (runEnter cfg { s with needClose := true } tape).st = (runOpen cfg { s with needClose := true } tape).st := by
+      rw [e1]; simp [hok]
+    simp only [hek, Bool.not_true, Bool.false_eq_true, if_false]
+    have hbody := inv_body hfix body _ (runEnter cfg { s with needClose := true } tape).tape true (hst ▸ ho1) (hst ▸ ho2) hb
+    obtain ⟨x1, _, _⟩ := runExit_unfold hcx (runBody cfg body (runEnter cfg { s with needClose := true } tape).st
+      (runEnter cfg { s with needClose := true } tape).tape).st
+      (runBody cfg body (runEnter cfg { s with needClose := true } tape).st (runEnter cfg { s with needClose := true } tape).tape).tape
+    have hr := close_released hfix _ (runBody cfg body (runEnter cfg { s with needClose := true } tape).st
+      (runEnter cfg { s with needClose := true } tape).tape).tape hbody.1
+    have hk := close_K hfix _ (runBody cfg body (runEnter cfg { s with needClose := true } tape).st
+      (runEnter cfg { s with needClose := true } tape).tape).tape hbody.1
+    rw [← x1] at hr hk
+    exact ⟨⟨K_need false hk, fun _ => Released_need false hr⟩, Released_need false hr, trivial⟩
+  · -- open() raised inside __enter__: the handler closes transport and channel
+    have hok' : (runOpen cfg { s with needClose := true } tape).ok = false := by simpa using hok
+    have hek : (runEnter cfg { s with needClose := true } tape).ok = false := by
+      rw [ok_false_iff, e2]; simp [hok']
+    have hst : (runEnter cfg { s with needClose := true } tape).st
+        = channelClose cfg (transportClose cfg (runOpen cfg { s with needClose := true } tape).st) := by
+      rw [e1]; simp [hok']
+    simp only [hek, Bool.not_false, if_true]
+    have hr := closeBoth_released hfix.2 _ ho1.1
+    have hk := (tol_K hfix.2).cclose _ ((tol_K hfix.2).tclose _ ho1.1)
+    rw [← hst] at hr hk
+    exact ⟨⟨K_need false hk, fun _ => Released_need false hr⟩, Released_need false hr, trivial⟩
+
+theorem inv_runOp (hfix : FixedCfg cfg) (op : Op) (s : St) (tape : List Ev) (h : Inv cfg s) (ha : allowed op s = true) :
+    Inv cfg (runOp cfg op s tape).st := by
+  cases op with
+  | «open» => exact (inv_open hfix s tape h (by simpa [allowed] using ha)).1
+  | close => exact (inv_close hfix s tape h).1
+  | operate => exact (inv_operate hfix s tape h).1
+  | withBlock body =>
+    have ha' : s.needClose = false ∧ bodyOK body true = true := by simpa [allowed] using ha
+    exact (inv_with hfix s tape body h ha'.1 ha'.2).1
+
+theorem reach_inv (hfix : FixedCfg cfg) {s : St} (hr : Reach cfg s) : Inv cfg s := by
+  induction hr with
+  | fresh => exact inv_fresh
+  | step op tape _ ha ih => exact inv_runOp hfix op _ tape ih ha
 
 
 end Scrapli.Lifecycle
